@@ -47,7 +47,7 @@ MAX_COQC = 6
 ALPHA = ['"', '"', "\\", "\\", "\n", "\n", "/", "/", "0", "1", "9", "x", "x", "_", "'", "\t", "\r", " ", " ",
          "a", "b", "f", "F", "g", "u", "i", "n", "t", "e", "l", "o", "s", "y", "r", "X", "A", "Z", "z",
          ":", ";", "{", "}", "[", "]", "(", ")", "=", ".", "+", "-", "*", ",", "#", "@", "\x00", "\x0b", "\x0c",
-         "\x7f", "\x85", "\u00e9", "\u00b2", "\u0663", "\u4e2d", "\u2028", "\u00a0", "\u00d7", "\U0001d7d8", "\ud800"]
+         "\x1c", "\x1d", "\x1e", "\x1f", "\u3000", "\u2003", "\x7f", "\x85", "\u00e9", "\u00b2", "\u0663", "\u4e2d", "\u2028", "\u00a0", "\u00d7", "\U0001d7d8", "\ud800"]
 WORDS = ["bool", "byte", "uint", "int", "uint8", "int16", "uint64", "uint65", "uint0", "int0", "uint08", "true",
          "false", "yes", "no", "proto", "import", "option", "type", "const", "enum", "message", "typedef",
          "0x1F", "0x", "0xg", "0X1f", "007", "12", "0", "x", "_", "Aa_1", "//", "/", "\"s\"", "\"a\\\"b\"", "\"\\n\"",
@@ -212,6 +212,18 @@ def catalogue(vocab: Dict[str, Any], rng: random.Random) -> List[Tuple[str, str]
     for s in ("+", "-", "*", "+-*/", "a+b*c-d/e", "++", "--", "**", "(1+2)*3", "<", ">", "<=", "%", "&", "|", "^", "~", "!",
               "?", ",", "#", "@", "$", "`", "\x00", "\x7f", "\x85", "\u2028", "\u00a0", "\ufeffproto a", "\ud800"):
         add("operator-or-invalid", s)
+    # characters str.split() / str.isspace() treat as blanks but the lexer does not ignore: alone, before blanks, at the end
+    for c in ("\x0b", "\x0c", "\x1c", "\x1d", "\x1e", "\x1f", "\x85", "\u00a0", "\u1680", "\u2000", "\u2028", "\u2029",
+              "\u202f", "\u205f", "\u3000", "\ufeff", "\u200b"):
+        for s in (c, c + " ", c + " \n\t ", "a " + c, "a\n" + c + "\n", c + "a", " " + c + c):
+            add("unicode-blank", s)
+    # escapes inside strings followed by more tokens (line numbers after a string)
+    for s in ('"\\n" x', '"a\\nb\\n" x\ny', 'x = "\\n\\n"\ny @', '"\\n"\n"\\n"\n@', '"\\t\\r\\n" uint99', '"\\n" "\\q"',
+              '// "\\n"\nx', '"\\\\n" x @'):
+        add("string-then-token", s)
+    for w in ("uint8_value", "int32_count", "uint3x", "uint8x = 1", "int8 x", "int8x", "uint16_t a", "boolx", "byte_", "bytes8",
+              "truex", "nox", "yes1", "false_"):
+        add("typeword-suffixed", w)
     add("long-identifier", "a" * 3000)
     add("long-identifier", "_" + "aB3_" * 600 + " x")
     add("long-digits-4300", "1" * 4300)
